@@ -51,6 +51,27 @@ CLAIMED["C12"] = (
     "trusts the reference substitution (30 lines) and the reference parser for the derivation; supplied names are identifiers",
     "DESIGN.md section 4 C12")
 
+CLAIMED["C03"] = (
+    "rapid-generated handler programs (middleware, nested groups, route handlers, action; ops write/Next/recovering Next/cancel/panic/return value; GET and HEAD; sibling routes in the same group), oracle = cursor interpreter written from the statement + model-free trace invariants",
+    "Random handler stacks are registered on a real Flame (middleware, up to three nested groups, 1..3 route handlers, optional action, other routes before and after in the same group) and one request is served; the recorded enter/next/back/exit trace, the status and the body must equal those of a cursor interpreter written from the statement, handlers must be entered as 0,1,2,... without gap or repetition and enter/exit must nest.",
+    "trusts the interpreter (60 lines) and httptest; handlers are closures of the shapes func(Context) and func(Context) result",
+    "DESIGN.md section 4 C03")
+CLAIMED["C13"] = (
+    "rapid-generated operation histories on NewResponseWriter over a spy writer (WriteHeader/Write incl. short writes/Flush/Before hooks; GET/HEAD/POST; with and without http.Flusher), oracle = state-machine model compared after every step + invariants over the spy's call log",
+    "Histories of 1..14 operations are applied to the real ResponseWriter wrapped around a spy; after every step Status/Written/Size and Write's results must equal a state-machine model written from the statement, the spy must have seen at most one status line and seen it first with the headers set by the hooks already present, hooks registered before the first write must have run exactly once in reverse order observing Status()==0, later hooks never.",
+    "trusts the 40-line model; hooks do not write (precondition); status codes 100..999",
+    "DESIGN.md section 4 C13")
+CLAIMED["C14"] = (
+    "rapid-generated return values for every supported shape at every chain position (+ custom ReturnHandler at application/request scope, + a value returned earlier in the chain), oracle = own response table, continuation rule and fast-path vs reflective differential",
+    "Handlers of the 13 supported return shapes returning generated values (arbitrary bytes, empty, nil, nil/non-nil errors of four types, any valid status) are placed as middleware, group handler, route handler or action; the spy's status, body and call order must equal an own table written from the statement, the following handler must run iff nothing was written, func() (int,string) must behave identically through the built-in fast path and reflectively, and a mapped ReturnHandler must receive exactly the returned values while the table is not applied.",
+    "trusts the table (40 lines); (int, \"\") sends the status with an empty body",
+    "DESIGN.md section 4 C14")
+CLAIMED["C15"] = (
+    "rapid-generated chains with Recovery at any position, panics of seven value kinds (incl. runtime errors, http.ErrAbortHandler and failed injection) at any later position/phase, in three environments, over request sequences; oracle = recover() around ServeHTTP + interpreter of what had been sent before the panic + fresh-instance differential",
+    "Random applications with Recovery as middleware, group handler or first route handler, recording middleware before it and 1..3 later handler programs are hit with sequences of panicking and healthy requests: nothing may escape ServeHTTP, the status must be the one sent before the panic or 500 if none, the body must be the earlier bytes plus (development) HTML showing the panic text or (otherwise) exactly 'Internal Server Error', every recording middleware must complete its code after Next(), and healthy requests must answer like on a fresh instance.",
+    "trusts the interpreter of the handler programs (40 lines); SetEnv is process-global and set per case, cases run one at a time",
+    "DESIGN.md section 4 C15")
+
 PENDING = {}
 
 def main():
